@@ -20,6 +20,7 @@ class Ctx:
         self.counters = {}
         self.fps = set()
         self.samples = []
+        self.auto_samples = []
         self.violations = []
         self.case = None
         self._sample_seen = 0
@@ -33,6 +34,8 @@ class Ctx:
     def evaluated(self, fp=None, nontrivial=True, n=1):
         """One oracle evaluation. `fp` identifies the case (program descriptor + datum + mode)."""
         self.counters["evaluations"] = self.counters.get("evaluations", 0) + n
+        if fp is not None and len(self.auto_samples) < 3:
+            self.auto_samples.append({"case": self.case, "evaluated": safe(fp)})
         if nontrivial and fp is not None:
             self.fps.add(int.from_bytes(hashlib.blake2b(repr(fp).encode("utf-8", "backslashreplace"), digest_size=8).digest(), "little"))
 
@@ -160,7 +163,7 @@ def main():
     except BaseException:  # noqa: BLE001
         fatal = traceback.format_exc()
     res = {
-        "counters": ctx.counters, "samples": ctx.samples, "violations": ctx.violations,
+        "counters": ctx.counters, "samples": ctx.samples or ctx.auto_samples, "violations": ctx.violations,
         "cases_done": cases_done, "fatal": fatal, "wall": time.monotonic() - ctx.t0,
     }
     with open(out[:-5] + ".fps", "wb") as f:
